@@ -34,7 +34,7 @@ RANKS = ['_SUSTAIN_ON', '_SUSTAIN_OFF', '_NOTE_ON', '_NOTE_OFF']
 
 
 def E(t):
-  return ast.parse(t, mode='eval').body
+  return U.E(t)
 
 
 def has(test, text, polarity=True):
@@ -171,7 +171,7 @@ def layout(ctx, fi, R):
          construct='producers cover the four ranks')
   loop = R.loop
   # the consumer's second component is the one dispatched on, the third is the object whose fields are read
-  used_type = any(isinstance(n, ast.Compare) and norm_text(n.left) == R.etype for n in ast.walk(loop))
+  used_type = any(isinstance(n, ast.Compare) and R.etype in (norm_text(n.left), norm_text(n.comparators[0])) for n in ast.walk(loop))
   used_obj = any(isinstance(n, ast.Attribute) and norm_text(n.value) == R.ev for n in ast.walk(loop))
   ok = used_type and used_obj
   ctx.ob('LAYOUT/consumer', fi, loop, ok, 'the consumer unpacks (time, rank, object) and dispatches on the rank' if ok else
